@@ -156,8 +156,9 @@ class AbstractFormat:
         # abs maps -inf to +inf, so +inf is present if either infinity was.
         # `has_neg_zero` is left at its default: `abs` never yields a negative
         # zero, so false is the derived answer here, not an omission.
+        # the largest magnitude comes from either bound: |neg_bound| may exceed pos_bound
         return AbstractFormat(
-            self.prec, self.exp, self.pos_bound, neg_bound=RealFloat.from_int(0),
+            self.prec, self.exp, max(self.pos_bound, -self.neg_bound), neg_bound=RealFloat.from_int(0),
             has_pos_inf=self.has_pos_inf or self.has_neg_inf, has_neg_inf=False, has_nan=self.has_nan,
         )
 
@@ -652,7 +653,7 @@ class AbstractFormat:
         if other.neg_bound > self.neg_bound:
             return False
         # 3. precision — only constraining when other has a finite normal region
-        if not isinstance(other.prec, float) and not isinstance(other.exp, float):
+        if not isinstance(other.prec, float):
             if self.prec > other.prec:
                 # easy check failed: other's spacing in its normal region widens faster.
                 # Containment still holds if self's bound stays within the region where
